@@ -20,7 +20,10 @@ PROP = 'C04'
 LEVEL = 'proof'
 PROPS_MODULES = ['RTV.Props.C04']
 GEN = ['nummaps', 'chartables']
-REQUIRED_THEOREMS = ['english_value', 'english_cardinal', 'english_ordinal', 'english_sub1000', 'spell_words_in_maps']
+REQUIRED_THEOREMS = ['english_value', 'english_cardinal', 'english_ordinal', 'english_sub1000', 'spell_words_in_maps',
+                     'spanish_sub1000', 'portuguese_sub1000', 'german_sub1000', 'dutch_sub1000',
+                     'french_sub1000_partial', 'french_plural_cents_witness', 'italian_sub1000_partial',
+                     'italian_accented_tre_witness']
 RULE = ('unit: __get_int_value on every English numeral of the pipeline set + seeded token lists over each '
         "culture's map keys; pipeline: English n<10^4 (quick: every 7th + boundaries; thorough: all), 10^k, 10^k±1, "
         'seeded n<10^15, x 8 variants x cardinal/ordinal x alone/carrier; es fr pt de it nl zh ja: generator output '
@@ -312,7 +315,45 @@ def pipeline_english(ctx, spelled):
     ctx.sample({'query': meta[len(meta) // 2][4], 'result': results[len(meta) // 2]})
 
 
+EU = {'es-es': 'es', 'fr-fr': 'fr', 'pt-br': 'pt', 'de-de': 'de', 'it-it': 'it', 'nl-nl': 'nl'}
+
+
+def eu_numerals(ctx):
+    """The numerals below 1000 of es fr pt de it nl come from the Lean specification `spellEu` (driver); unit ties:
+    the tokeniser yields the specification's tokens, and __get_int_value agrees with the model on them."""
+    lines = ['n.spelleu\t%s\t%d' % (short, n) for short in EU.values() for n in range(1000)]
+    out = common.driver(lines)
+    table = {}
+    k = 0
+    for cu in EU:
+        for n in range(1000):
+            text, toks = out[k].split('|')
+            table[(cu, n)] = (uncps(text), [uncps(t) for t in toks.split(';')])
+            k += 1
+    gl, gi, meta = [], [], []
+    for (cu, n), (text, toks) in table.items():
+        parser = numlib.models(cu)['number'].parser
+        got = [m.group().lower() for m in parser.text_number_regex.finditer(text)]
+        if got != toks:
+            ctx.report('correspondence', 'tokenise-%s' % cu, 'text_number_regex on %r: %r, specification tokens %r' % (
+                text, got, toks), failing_input={'culture': cu, 'text': text, 'implementation': got, 'model': toks})
+        a, _ = giv_impl(parser, toks)
+        gl.append('n.giv\t%s\t%d\t%s' % (cps(cu), variant(), '\t'.join(cps(t) for t in toks)))
+        gi.append(a)
+        meta.append((cu, n, toks))
+    model = [numlib.canon_model_err(m) for m in common.driver(gl)]
+    ctx.count('int-value-eu-numerals', len(gl))
+    for (cu, n, toks), a, b in zip(meta, gi, model):
+        ctx.nontriv(('giv', cu, n))
+        if a != b:
+            ctx.report('correspondence', 'int-value', '__get_int_value(%r) [%s]: implementation %s, model %s' % (
+                toks, cu, a, b), failing_input={'culture': cu, 'tokens': toks, 'implementation': a, 'model': b,
+                                                'denotes': n})
+    return table
+
+
 def pipeline_other(ctx):
+    eu = eu_numerals(ctx)
     r = ctx.rng('other')
     jobs, meta = [], []
     for cu, gen in numerals.GENERATORS.items():
@@ -323,7 +364,7 @@ def pipeline_other(ctx):
             k = r.randint(3, 11)
             ns.add(r.randint(10 ** (k - 1), 10 ** k - 1))
         for n in sorted(ns):
-            text = gen(n)
+            text = eu[(cu, n)][0] if (cu, n) in eu else gen(n)     # below 1000: the Lean specification
             if text is None:
                 continue
             for carrier in (False, True):
